@@ -476,7 +476,11 @@ func hostileModel(fx *fixture, r *prng, v int) (*openfgav1.WriteAuthorizationMod
 		doc.Relations["c"] = computed("a")
 		note = "computed cycle a->b->c->a"
 	case 8: // long computed chain (valid)
-		n := rec.Pick(r, []int{30, 300, 3000})
+		// n = 1500 (cubic cost, finding model_validation_hascycle_cost) only as a systematic variant
+		n := rec.Pick(r, []int{30, 100, 300})
+		if v >= 0 {
+			n = []int{30, 300, 1500}[(v/nModelShapes)%3]
+		}
 		for i := 0; i < n; i++ {
 			doc.Relations[fmt.Sprintf("r%d", i)] = computed(fmt.Sprintf("r%d", i+1))
 		}
@@ -532,7 +536,7 @@ func hostileModel(fx *fixture, r *prng, v int) (*openfgav1.WriteAuthorizationMod
 		}
 		note = fmt.Sprintf("ttu ring n=%d", n)
 	case 15: // exponential-looking diamond: r_i = r_{i+1} or r_{i+1}
-		// n = 24 (minutes of CPU, finding model_validation_exponential) only as a systematic variant
+		// n = 24 (minutes of CPU, finding model_validation_hascycle_cost) only as a systematic variant
 		n := rec.Pick(r, []int{6, 10, 14})
 		if v >= 0 {
 			n = []int{8, 12, 24}[(v/nModelShapes)%3]
